@@ -442,8 +442,22 @@ def free_bookkeeping(norb=2, nu=1, nd=1):
     trial = wf.uhf(norb, nel)
     calls = {"qr": 0, "ov": []}
 
+    def _block_of(arr):
+        """which propagated spin block a matrix depends on (the contract of qr is applied to the block that is actually passed)"""
+        names = sp.names
+        seen = set()
+        for v in np.asarray(arr, dtype=object).reshape(-1):
+            if isinstance(v, Fr):
+                for mono in v.n.keys():
+                    seen.update(names[i] for i, ex in enumerate(mono) if ex)
+        # a block is recognised by the propagated walker symbols or, for a re-orthonormalisation of an already orthonormal block, by its Q symbols
+        ks = {k for k in range(2) if any(nm in seen for nm in list(np.asarray(hw[k]["names"]).reshape(-1)) + list(np.asarray(hq[k]["names"]).reshape(-1)))}
+        if len(ks) != 1:
+            raise Unsupported(f"qr called on a matrix that depends on {sorted(ks)} propagated spin blocks")
+        return ks.pop()
+
     def h_qr(it, e, ins):
-        k = calls["qr"] % 2
+        k = _block_of(ins[0])
         calls["qr"] += 1
         return [hq[k]["V"].s, R[k]]
 
